@@ -27,7 +27,7 @@ REQUIRED_ANCHORS = ('ma', 'arma_estimate', 'arma2psd')
 def _x_ok(X, nmin=4):
     try:
         x = np.asarray(X)
-        return x.ndim == 1 and len(x) >= nmin and (x.dtype.kind in 'fc' or (x.dtype.kind == 'i' and x.dtype.itemsize == 8)) \
+        return x.ndim == 1 and len(x) >= nmin and x.dtype.kind in 'fciu' \
             and np.all(np.isfinite(x)) and np.any(x)
     except Exception:
         return False
@@ -57,6 +57,8 @@ def post_ma(X, Q, M, result):
     if not (0 < Q < M < N):
         return c.discard('ma:order-domain')
     x = np.asarray(X)
+    if x.dtype.kind in 'iu':
+        x = x.astype(float)          # the monitor's arithmetic is floating point whatever the storage type
     # non-degenerate: the long AR fit must not be singular
     r = refs.biased_ac(x, M)
     lam = np.linalg.eigvalsh(refs.herm_toeplitz(r))
@@ -103,6 +105,8 @@ def post_arma_estimate(X, P, Q, lag, result):
     except Exception:
         return c.discard('arma_estimate:order-domain')
     x = np.asarray(X)
+    if x.dtype.kind in 'iu':
+        x = x.astype(float)          # the monitor's arithmetic is floating point whatever the storage type
     N = len(x)
     if not in_domain(N, P, Q, lag):
         return c.discard('arma_estimate:order-domain')
@@ -115,6 +119,11 @@ def post_arma_estimate(X, P, Q, lag, result):
     a = np.asarray(a)
     c.require('arma_estimate:ar-length', a.shape == (P,), {'len': list(a.shape), 'P': P}, feats)
     fin = bool(np.all(np.isfinite(a)))
+    if not fin and lag - Q >= P:
+        # "non-degenerate data": integer-valued records can have unbiased lags that are exactly 0 and make the
+        # modified Yule-Walker system exactly singular (P = Q = 1, r[1] == 0: a = -r[2]/0) - no AR part exists
+        if not np.isfinite(myw_ls(x, P, Q, lag)[1]) or myw_ls(x, P, Q, lag)[1] > 1e12:
+            return c.discard('arma_estimate:degenerate-data(singular-modified-yule-walker-system)')
     c.require('arma_estimate:ar-finite', fin, {'a': a[:4], 'N': N, 'P': P, 'Q': Q, 'lag': lag}, feats)
     if fin:
         judge_ma_part(c, 'arma_estimate', b, rho, Q, feats)
@@ -180,12 +189,14 @@ def cases(c):
             continue
         out.append({'fn': 'arma_estimate', 'N': N, 'P': pql[0], 'Q': pql[1], 'lag': pql[2],
                     'cplx': int(rng.integers(0, 2)), 'kind': gen.pick(rng, KINDS), 'i': i})
+        _narrow(out[-1], i)
     for i in range(500 if c.tier == 'quick' else 96000):
         N = int(rng.integers(16, 257 if i % 4 == 0 else 80))
         M = int(rng.integers(2, min(N - 1, 40) + 1))
         Q = int(rng.integers(1, M))
         out.append({'fn': 'ma', 'N': N, 'Q': Q, 'M': M, 'cplx': int(rng.integers(0, 2)),
                     'kind': gen.pick(rng, KINDS), 'i': i})
+        _narrow(out[-1], i)
     for i in range(800 if c.tier == 'quick' else 144000):
         N = int(rng.integers(16, 129))
         cls = CLASSES[i % len(CLASSES)]
@@ -206,9 +217,14 @@ def cases(c):
     return out
 
 
+def _narrow(d, i):
+    if i % 7 == 2 and not d['cplx']:
+        d['variant'] = gen.NARROW[(i // 7) % len(gen.NARROW)]          # wav / ADC samples in a narrow integer type
+
+
 def make_x(c, d):
     kind = d['kind']
-    dd = {'kind': 'ar' if kind == 'arma' else kind, 'N': d['N'], 'cplx': bool(d['cplx'])}
+    dd = {'kind': 'ar' if kind == 'arma' else kind, 'N': d['N'], 'cplx': bool(d['cplx']), 'variant': d.get('variant')}
     if kind == 'arma':
         dd.update(p=3, q=2)
     return gen.data(dd, c.rng(d, 'x'))
